@@ -174,18 +174,19 @@ Qed.
 
 (* the condition under which site j of [all] gets a redirect site, relative to [all] *)
 Definition wants_in (all : list site) (j : nat) (c : site) : Prop :=
-  en (tls c) = true /\ nr (tls c) = false /\ host_has_other_port all j P80 = false /\
+  en (tls c) = true /\ nr (tls c) = false /\ port c <> P80 /\ scheme c <> HTTP /\
+  host_has_other_port all j P80 = false /\
   (port c = P443 \/ host_has_other_port all j P443 = false).
 
 Lemma wants_redirect_iff all j c : wants_redirect all j c = true <-> wants_in all j c.
 Proof.
   unfold wants_redirect, wants_in.
-  rewrite !andb_true_iff, orb_true_iff, !negb_true_iff, beq_eq. tauto.
+  rewrite !andb_true_iff, orb_true_iff, !negb_true_iff, !beq_neq, beq_eq. tauto.
 Qed.
 
 Lemma wants_in_mono all x j c : (j < length all)%nat -> wants_in (all ++ x) j c -> wants_in all j c.
 Proof.
-  intros Hj (H1 & H2 & H3 & H4). repeat split; try assumption.
+  intros Hj (H1 & H2 & Hp & Hs & H3 & H4). repeat split; try assumption.
   - eapply hhop_app_false; eassumption.
   - destruct H4 as [H4|H4]; [left; exact H4|right; eapply hhop_app_false; eassumption].
 Qed.
@@ -380,69 +381,70 @@ Lemma redirects_sound all :
       exists j c, nth_error all j = Some c /\ host r = host c /\ listen r = listen c /\
         port r = P80 /\ scheme r = [] /\ en (tls r) = false /\ mg (tls r) = false /\
         redir r = Some (if beq (port c) P443 then [] else port c) /\
-        en (tls c) = true /\ nr (tls c) = false /\ host_has_other_port all j P80 = false.
+        en (tls c) = true /\ nr (tls c) = false /\ port c <> P80 /\ scheme c <> HTTP /\
+        host_has_other_port all j P80 = false.
 Proof.
   destruct (make_plaintext_redirects_sound all) as (extra & He & Hf).
   exists extra. split; [exact He|]. intros r Hr. rewrite Forall_forall in Hf.
-  destruct (Hf r Hr) as (j & c & Hn & -> & (H1 & H2 & H3 & _)).
-  exists j, c. repeat split; assumption.
+  destruct (Hf r Hr) as (j & c & Hn & -> & (H1 & H2 & Hp & Hs & H3 & _)).
+  exists j, c. split; [exact Hn|]. do 7 (split; [reflexivity|]). auto.
 Qed.
 
-Lemma redirects_never_http_port_partial all :
-  (forall c, In c all -> en (tls c) = true -> port c <> P80) ->
+(* no synthesised redirect names the HTTP port, for EVERY site list *)
+Lemma redirects_never_http_port all :
   exists extra, make_plaintext_redirects all = all ++ extra /\
     forall r, In r extra -> exists p, redir r = Some p /\ p <> P80.
 Proof.
-  intros H. destruct (make_plaintext_redirects_sound all) as (extra & He & Hf).
+  destruct (make_plaintext_redirects_sound all) as (extra & He & Hf).
   exists extra. split; [exact He|]. intros r Hr. rewrite Forall_forall in Hf.
-  destruct (Hf r Hr) as (j & c & Hn & -> & (H1 & _)).
-  exists (redir_port c). split; [reflexivity|]. apply redir_port_not_80.
-  apply H; [eapply nth_error_In; exact Hn|exact H1].
+  destruct (Hf r Hr) as (j & c & Hn & -> & (_ & _ & Hp & _)).
+  exists (redir_port c). split; [reflexivity|]. apply redir_port_not_80. exact Hp.
 Qed.
 
-(* the hypothesis of the partial theorem follows from a hypothesis on the declarations:
-   no tls directive that enables TLS on a site declared as plain HTTP *)
-Lemma after_callback_port_not_80 d s :
-  addr_agrees d = true -> init_site d = Some s ->
-  (declared_http d = true -> en (tls s) = false) ->
-  en (tls (after_callback s)) = true -> port (after_callback s) <> P80.
+(* ... and the site a redirect points to still serves HTTPS after MakeServers: TLS stays enabled,
+   its port is not 80 and its scheme is not http *)
+Lemma ms_one_https c :
+  en (tls c) = true -> beq (port c) P80 = false -> beq (scheme c) HTTP = false ->
+  tls (ms_one c) = tls c /\ host (ms_one c) = host c /\
+  beq (scheme (ms_one c)) HTTP = false /\ beq (port (ms_one c)) P80 = false.
 Proof.
-  intros Had Hs Hd.
-  destruct (init_site_fields _ _ Hs) as (Hsc & _ & Hp & _ & _ & Hm & _).
-  assert (Hh : beq (port s) P80 || beq (scheme s) HTTP = declared_http d).
-  { unfold addr_agrees in Had.
-    destruct (std_addr (ds_scheme d) (ds_port d)) as [[sc p]|] eqn:Es; [|discriminate].
-    apply andb_true_iff in Had as [H1 H2]. apply beq_eq in H1. apply beq_eq in H2. subst sc p.
-    rewrite Hp, Hsc. apply (std_addr_http _ _ _ _ Es). }
-  destruct (declared_http d) eqn:Ed.
-  - assert (Hq : qualifies s = false).
-    { destruct (qualifies s) eqn:Eq; [|reflexivity]. apply qualifies_not_http in Eq. congruence. }
-    unfold after_callback. rewrite (mark_one_unqualified _ Hq), (enable_one_unmanaged _ Hm).
-    rewrite (Hd eq_refl). discriminate.
-  - intros _. apply orb_false_iff in Hh as [Hp80 _]. apply beq_neq in Hp80.
-    unfold after_callback, enable_one.
-    assert (Hpm : port (mark_one s) = port s).
-    { unfold mark_one. destruct (qualifies s); reflexivity. }
-    destruct (mg (tls (mark_one s)) && negb (od (tls (mark_one s)))); [|rewrite Hpm; exact Hp80].
-    match goal with |- context [if ?b then _ else _] => destruct b end.
-    + discriminate.
-    + cbn [port with_scheme with_tls]. rewrite Hpm. exact Hp80.
+  intros He Hp Hs. unfold ms_one. rewrite He, Hp, Hs. cbn [orb].
+  destruct c as [sc h p l t r]. cbn [scheme host port listen tls redir] in *.
+  destruct sc as [|s0 sc'];
+    match goal with |- context [if ?b then _ else _] => destruct b end;
+    cbn [with_scheme with_port with_tls scheme host port listen tls redir];
+    repeat split; try assumption; reflexivity.
 Qed.
 
-Lemma pipeline_redirects_never_http_port ds : forall init,
-  init_sites ds = Some init -> forallb addr_agrees ds = true ->
-  (forall d t, In d ds -> declared_http d = true -> tls_setup (d_tls d) = Some t -> en t = false) ->
-  forall c, In c (map after_callback init) -> en (tls c) = true -> port c <> P80.
+Lemma group_one_fields s :
+  host (group_one s) = host s /\ scheme (group_one s) = scheme s /\
+  (beq (port s) P80 = false -> beq (port (group_one s)) P80 = false).
 Proof.
-  induction ds as [|d ds IH]; intros init Hi Ha Hd c Hc.
-  - simpl in Hi. injection Hi as <-. destruct Hc.
-  - apply init_sites_cons in Hi as (s & l & -> & Hs & Hl).
-    simpl in Ha. apply andb_true_iff in Ha as [Had Ha].
-    simpl in Hc. destruct Hc as [<-|Hc].
-    + apply (after_callback_port_not_80 d s Had Hs).
-      intros Hdh. destruct (init_site_fields _ _ Hs) as (_ & _ & _ & _ & _ & _ & Ht).
-      apply (Hd d (tls s)); [left; reflexivity|exact Hdh|exact Ht].
-    + apply (IH l Hl Ha); [|exact Hc]. intros d' t Hin. apply Hd. right. exact Hin.
+  unfold group_one. destruct (port s) eqn:E; cbn [with_port host scheme port]; rewrite ?E; auto.
+Qed.
+
+Lemma finish_keeps_https c :
+  en (tls c) = true -> port c <> P80 -> scheme c <> HTTP ->
+  https_site (finish c) = true /\ nr (tls (finish c)) = nr (tls c) /\ host (finish c) = host c.
+Proof.
+  intros He Hp Hs. apply beq_neq in Hp. apply beq_neq in Hs.
+  destruct (ms_one_https c He Hp Hs) as (Ht & Hh & Hsc & Hpo).
+  destruct (group_one_fields (ms_one c)) as (Gh & Gs & Gp).
+  unfold finish, https_site. rewrite group_one_tls, Ht, He, Gs, Hsc, (Gp Hpo), Gh, Hh. auto.
+Qed.
+
+Lemma redirects_target_stays_https all :
+  exists extra, make_plaintext_redirects all = all ++ extra /\
+    forall r, In r extra ->
+      exists j c, nth_error all j = Some c /\ host r = host (finish c) /\ redir r = Some (redir_port c) /\
+        https_site (finish c) = true /\ nr (tls (finish c)) = false.
+Proof.
+  destruct (make_plaintext_redirects_sound all) as (extra & He & Hf).
+  exists extra. split; [exact He|]. intros r Hr. rewrite Forall_forall in Hf.
+  destruct (Hf r Hr) as (j & c & Hn & -> & (H1 & H2 & Hp & Hs & _)).
+  destruct (finish_keeps_https c H1 Hp Hs) as (Hh & Hnr & Hho).
+  exists j, c. split; [exact Hn|]. split; [symmetry; exact Hho|]. split; [reflexivity|].
+  split; [exact Hh|]. rewrite Hnr. exact H2.
 Qed.
 
 (* ------------------------------------------------------------------ completeness of redirect synthesis *)
@@ -487,8 +489,9 @@ Proof.
     destruct (wants_redirect (orig ++ acc) i c) eqn:Ew.
     + exists (redir_site c). split; [apply in_or_app; left; auto|]. split; reflexivity.
     + (* blocked: only a synthesised site of the same host can be the blocker *)
-      destruct Hw as (H1 & H2 & H3 & H4).
-      unfold wants_redirect in Ew. rewrite H1, H2 in Ew. simpl in Ew.
+      destruct Hw as (H1 & H2 & Hp80 & Hsch & H3 & H4).
+      apply beq_neq in Hp80. apply beq_neq in Hsch.
+      unfold wants_redirect in Ew. rewrite H1, H2, Hp80, Hsch in Ew. simpl in Ew.
       unfold host_has_other_port in Ew, H3, H4.
       rewrite nth_error_app1 in Ew by exact Hi. rewrite Hn in Ew, H3, H4.
       rewrite !other_has_app, H3 in Ew. simpl in Ew.
@@ -525,14 +528,6 @@ Definition w_http_tls : dsite :=
   Build_dsite (bs "http") [] (bs "http") (bs "example.com") (bs "80") []
               (TDir (A1 (bs "admin@example.com")) false false false).
 
-Lemma redirect_never_to_http_port_refuted :
-  exists ds init, init_sites ds = Some init /\ forallb addr_agrees ds = true /\
-    exists r, In r (pipeline init) /\ is_synth r = true /\ host r = bs "example.com" /\ redir r = Some P80.
-Proof.
-  exists [w_http_tls]. eexists. split; [vm_compute; reflexivity|]. split; [vm_compute; reflexivity|].
-  eexists. split; [vm_compute; right; left; reflexivity|]. repeat split; reflexivity.
-Qed.
-
 Definition w_alt : dsite :=
   Build_dsite [] (bs "8443") [] (bs "example.com") (bs "8443") [] (TDir (A1 (bs "admin@example.com")) false false false).
 Definition w_443_noredir : dsite :=
@@ -548,11 +543,6 @@ Proof.
   exists [w_alt; w_443_noredir]. eexists. split; [vm_compute; reflexivity|]. split; [vm_compute; reflexivity|].
   eexists. split; [vm_compute; left; reflexivity|]. repeat split; vm_compute; reflexivity.
 Qed.
-
-Lemma redirect_location_ipv6_refuted :
-  redir_location [] (bs "[::1]:80") (bs "/x") = bs "https://::1/x" /\
-  redir_location (bs "8443") (bs "[::1]") (bs "/x") = bs "https://[[::1]]:8443/x".
-Proof. split; vm_compute; reflexivity. Qed.
 
 (* ------------------------------------------------------------------ the redirect handler *)
 Definition plain (s : bytes) : Prop := forall c, In c s -> c <> COLON /\ c <> LBR /\ c <> RBR.
@@ -620,34 +610,126 @@ Qed.
 
 Definition port_part (rport : bytes) : bytes := match rport with [] => [] | _ => COLON :: rport end.
 
-Lemma join_plain h rport : plain h -> rport <> [] ->
-  join_host_port h rport = h ++ port_part rport.
+Lemma has_prefix_app_self (x y : bytes) : has_prefix (x ++ y) x = true.
+Proof. induction x as [|c x IH]; [destruct y; reflexivity|]. simpl. rewrite N.eqb_refl. exact IH. Qed.
+
+Lemma has_suffix_app_self (a b : bytes) : has_suffix (a ++ b) b = true.
+Proof. unfold has_suffix. rewrite rev_app_distr. apply has_prefix_app_self. Qed.
+
+(* when SplitHostPort finds the port p behind h, exactly ":p" is dropped *)
+Lemma strip_port_go_some h x p :
+  split_host_port (h ++ COLON :: p) = Some (x, p) -> strip_port_go (h ++ COLON :: p) = h.
 Proof.
-  intros Hh Hr. unfold join_host_port, port_part.
-  rewrite (plain_contains h COLON Hh) by auto. destruct rport; [contradiction|reflexivity].
+  intros H. unfold strip_port_go. rewrite H, has_suffix_app_self.
+  replace (length (h ++ COLON :: p) - S (length p))%nat with (length h)
+    by (rewrite app_length; simpl; lia).
+  apply firstn_app_exact.
 Qed.
 
-(* For every host name h (no colon, no brackets), every port text p, every redirect port and every
-   request URI: the Location is https://h[:redirPort]uri — the Host's own port is dropped. *)
-Lemma redir_location_plain rport h uri :
-  plain h ->
+(* bracketed literals: [a] with no bracket inside a (colons allowed) *)
+Definition nobr (s : bytes) : Prop := forall c, In c s -> c <> LBR /\ c <> RBR.
+Definition bracketed (h : bytes) : Prop := exists a, h = LBR :: a ++ [RBR] /\ nobr a.
+(* a host as it appears in a Host header: a name / IPv4 address, or a bracketed IPv6 literal *)
+Definition host_token (h : bytes) : Prop := plain h \/ bracketed h.
+
+Lemma nobr_contains s c : nobr s -> (c = LBR \/ c = RBR) -> contains_byte c s = false.
+Proof.
+  intros Hp Hc. unfold contains_byte. destruct (existsb (N.eqb c) s) eqn:E; [|reflexivity].
+  apply existsb_exists in E as (x & Hx & Hcx). apply N.eqb_eq in Hcx. subst x.
+  destruct (Hp c Hx) as (H1 & H2). destruct Hc as [->| ->]; contradiction.
+Qed.
+
+Lemma index_byte_app c a r : contains_byte c a = false -> index_byte c (a ++ c :: r) = Some (length a).
+Proof.
+  unfold contains_byte. induction a as [|x a IH]; intros H; simpl.
+  - rewrite N.eqb_refl. reflexivity.
+  - simpl in H. apply orb_false_iff in H as [Hx Ha]. rewrite N.eqb_sym, Hx. rewrite (IH Ha). reflexivity.
+Qed.
+
+Lemma length_bracket (a : bytes) : length (LBR :: a ++ [RBR]) = S (S (length a)).
+Proof. simpl. rewrite app_length. simpl. lia. Qed.
+
+(* "[a]" carries no port *)
+Lemma split_host_port_bracket_none a : nobr a -> split_host_port (LBR :: a ++ [RBR]) = None.
+Proof.
+  intros Ha. unfold split_host_port.
+  destruct (last_index_byte COLON (LBR :: a ++ [RBR])) as [i|]; [|reflexivity].
+  change (LBR =? LBR) with true. cbv iota.
+  change (LBR :: a ++ [RBR]) with ((LBR :: a) ++ RBR :: []).
+  rewrite index_byte_app.
+  2:{ unfold contains_byte. simpl. change (RBR =? LBR) with false. simpl.
+      apply (nobr_contains a RBR Ha). auto. }
+  replace (length ((LBR :: a) ++ [RBR])) with (S (length (LBR :: a))) by (rewrite app_length; simpl; lia).
+  rewrite Nat.eqb_refl. reflexivity.
+Qed.
+
+(* "[a]:p" splits into the bare literal and the port *)
+Lemma split_host_port_bracket a p :
+  nobr a -> plain p -> split_host_port ((LBR :: a ++ [RBR]) ++ COLON :: p) = Some (a, p).
+Proof.
+  intros Ha Hp. unfold split_host_port.
+  rewrite last_index_app by (apply plain_contains; auto).
+  rewrite length_bracket.
+  assert (E : (LBR :: a ++ [RBR]) ++ COLON :: p = (LBR :: a) ++ RBR :: COLON :: p)
+    by (simpl; rewrite <- app_assoc; reflexivity).
+  rewrite E. cbn [app]. change (LBR =? LBR) with true. cbv iota.
+  change (LBR :: a ++ RBR :: COLON :: p) with ((LBR :: a) ++ RBR :: COLON :: p).
+  rewrite index_byte_app.
+  2:{ unfold contains_byte. simpl. change (RBR =? LBR) with false. simpl.
+      apply (nobr_contains a RBR Ha). auto. }
+  cbn [length].
+  replace (length ((LBR :: a) ++ RBR :: COLON :: p)) with (S (S (S (length a + length p))))
+    by (rewrite app_length; simpl; lia).
+  assert (N1 : Nat.eqb (S (S (length a))) (S (S (S (length a + length p)))) = false)
+    by (apply Nat.eqb_neq; lia).
+  rewrite N1, Nat.eqb_refl.
+  (* no '[' behind the first one *)
+  rewrite contains_byte_app. rewrite (nobr_contains a LBR Ha) by auto.
+  assert (CL : contains_byte LBR (RBR :: COLON :: p) = false).
+  { unfold contains_byte. simpl. change (LBR =? RBR) with false. change (LBR =? COLON) with false. simpl.
+    apply (plain_contains p LBR Hp). auto. }
+  rewrite CL. simpl orb. cbv iota.
+  (* no ']' behind the port's colon *)
+  assert (SK : skipn (S (S (length a))) ((LBR :: a) ++ RBR :: COLON :: p) = COLON :: p).
+  { change ((LBR :: a) ++ RBR :: COLON :: p) with (LBR :: (a ++ RBR :: COLON :: p)).
+    cbn [skipn]. apply skipn_app_cons. }
+  rewrite SK.
+  assert (CR : contains_byte RBR (COLON :: p) = false).
+  { unfold contains_byte. simpl. change (RBR =? COLON) with false. simpl. apply (plain_contains p RBR Hp). auto. }
+  rewrite CR.
+  replace (S (length a) - 1)%nat with (length a) by lia.
+  rewrite firstn_app_exact.
+  assert (SK2 : skipn (S (S (S (length a)))) ((LBR :: a) ++ RBR :: COLON :: p) = p).
+  { rewrite <- E. rewrite <- (length_bracket a). apply skipn_app_cons. }
+  rewrite SK2. reflexivity.
+Qed.
+
+Lemma strip_port_go_token h : host_token h -> strip_port_go h = h.
+Proof.
+  intros [Hh|(a & -> & Ha)]; unfold strip_port_go.
+  - rewrite (split_host_port_none h Hh). reflexivity.
+  - rewrite (split_host_port_bracket_none a Ha). reflexivity.
+Qed.
+
+Lemma strip_port_go_token_port h p : host_token h -> plain p -> strip_port_go (h ++ COLON :: p) = h.
+Proof.
+  intros [Hh|(a & -> & Ha)] Hp.
+  - exact (strip_port_go_some h h p (split_host_port_simple h p Hh Hp)).
+  - exact (strip_port_go_some _ a p (split_host_port_bracket a p Ha Hp)).
+Qed.
+
+(* For every host h — a name without colon or brackets, or a bracketed IPv6 literal —, every port
+   text p, every redirect port and every request URI: the Location is https://h[:redirPort]uri;
+   the Host's own port is dropped, the brackets are kept. *)
+Lemma redir_location_token rport h uri :
+  host_token h ->
   redir_location rport h uri = hex_escape_non_ascii (bs "https://" ++ h ++ port_part rport ++ uri).
-Proof.
-  intros Hh. unfold redir_location, strip_port_go. rewrite (split_host_port_none h Hh).
-  destruct rport as [|r0 r].
-  - reflexivity.
-  - rewrite join_plain by (auto; discriminate). rewrite <- app_assoc. reflexivity.
-Qed.
+Proof. intros Hh. unfold redir_location. rewrite (strip_port_go_token h Hh). reflexivity. Qed.
 
-Lemma redir_location_with_port rport h p uri :
-  plain h -> plain p ->
+Lemma redir_location_token_port rport h p uri :
+  host_token h -> plain p ->
   redir_location rport (h ++ COLON :: p) uri = hex_escape_non_ascii (bs "https://" ++ h ++ port_part rport ++ uri).
-Proof.
-  intros Hh Hp. unfold redir_location, strip_port_go. rewrite (split_host_port_simple h p Hh Hp).
-  destruct rport as [|r0 r].
-  - reflexivity.
-  - rewrite join_plain by (auto; discriminate). rewrite <- app_assoc. reflexivity.
-Qed.
+Proof. intros Hh Hp. unfold redir_location. rewrite (strip_port_go_token_port h p Hh Hp). reflexivity. Qed.
 
 Lemma hex_escape_ascii s : (forall c, In c s -> c < 128) -> hex_escape_non_ascii s = s.
 Proof.
@@ -728,16 +810,17 @@ Lemma managed_iff_qualifies s : mg (tls s) = false ->
 Proof. intros Hm. rewrite mark_one_managed, Hm. simpl. exact (qualifies_iff s). Qed.
 
 Lemma redirects_complete_partial all j c : nth_error all j = Some c ->
-  en (tls c) = true -> nr (tls c) = false -> host_has_other_port all j P80 = false ->
+  en (tls c) = true -> nr (tls c) = false -> port c <> P80 -> scheme c <> HTTP ->
+  host_has_other_port all j P80 = false ->
   (port c = P443 \/ host_has_other_port all j P443 = false) ->
   exists extra, make_plaintext_redirects all = all ++ extra /\
     exists r, In r extra /\ host r = host c /\ port r = P80.
-Proof. intros Hn H1 H2 H3 H4. apply (redirects_complete all j c Hn). repeat split; assumption. Qed.
+Proof. intros Hn H1 H2 Hp Hs H3 H4. apply (redirects_complete all j c Hn). unfold wants_in. auto 10. Qed.
 
-Lemma redir_location_partial rport h p uri : plain h -> plain p ->
+Lemma redir_location_full rport h p uri : host_token h -> plain p ->
   redir_location rport h uri = hex_escape_non_ascii (bs "https://" ++ h ++ port_part rport ++ uri) /\
   redir_location rport (h ++ COLON :: p) uri = hex_escape_non_ascii (bs "https://" ++ h ++ port_part rport ++ uri).
-Proof. intros. split; [apply redir_location_plain|apply redir_location_with_port]; assumption. Qed.
+Proof. intros. split; [apply redir_location_token|apply redir_location_token_port]; assumption. Qed.
 
 (* ------------------------------------------------------------------ at most one redirect site per host *)
 Lemma other_has_nth l : forall o k i x h p,
@@ -784,7 +867,7 @@ Proof.
       * intros r x [<-|Hr] Hxin Hp.
         -- (* a later :80 site of the same host would have blocked the redirect *)
            simpl. intros Hh.
-           apply wants_redirect_iff in Ew. destruct Ew as (_ & _ & H80 & _).
+           apply wants_redirect_iff in Ew. destruct Ew as (_ & _ & _ & _ & H80 & _).
            unfold host_has_other_port in H80. rewrite Ec in H80.
            apply in_skipn_nth in Hxin as (k & Hk & Hn).
            rewrite (other_has_nth all 0 k i x (host c) P80 Hn) in H80; [discriminate|simpl; lia|exact Hh|exact Hp].
